@@ -1,3 +1,4 @@
 import CssVerif.Props.C13
 #print axioms CssVerif.C13.written_is_encodable
 #print axioms CssVerif.C13.read_back
+#print axioms CssVerif.C13.gen_unicodesub_shape
